@@ -45,6 +45,7 @@ class Spec:
     extra_pad_blocks: int = 0      # TLS >= 1.0 CBC: extra whole blocks of padding (<= 255 bytes total)
     offered: tuple = ()            # other suites offered in ClientHello besides the selected one
     use_rsa_label: bool = False    # <= 1.2: log the pre-master secret ("RSA <enc-pms-prefix> <pms>") - not generated (needs the encrypted PMS)
+    hrr: bool = False              # TLS 1.3 only: ClientHello, HelloRetryRequest, second ClientHello (same random) - NOT in C01's claimed domain; used where "whatever the input" is claimed (C06)
     keylog_extra: bool = True      # EXPORTER_SECRET etc. lines present
     shuffle_exts: bool = False     # ServerHello extensions in random order
     master: bytes = None           # <= 1.2: use this master secret (a resumption shares it with the session it resumes; randoms are fresh)
@@ -134,6 +135,17 @@ def build_conn(spec: Spec, rng) -> Conn:
         ch += len(ce).to_bytes(2, "big") + ce
     ch_wire = b"\x03\x01" if v >= 0x0301 else b"\x03\x00"
     ev.append(Ev("c", refrec.plain_record(22, ch_wire, hs(1, ch)), "hs"))
+    if spec.hrr and v == 0x0304:
+        hrr_random = hashlib.sha256(b"HelloRetryRequest").digest()
+        hrr = legacy + hrr_random + bytes([len(sid)]) + sid + suite_b + b"\x00"
+        he = ext(0x002b, b"\x03\x04") + ext(0x0033, b"\x00\x18")
+        ev.append(Ev("s", refrec.plain_record(22, wire, hs(2, hrr + len(he).to_bytes(2, "big") + he)), "hs"))
+        if spec.ccs13:
+            ev.append(Ev("s", refrec.plain_record(20, wire, b"\x01"), "ccs"))
+            ev.append(Ev("c", refrec.plain_record(20, wire, b"\x01"), "ccs"))
+        ce2 = ext(0, b"\x00\x0e\x00\x00\x0bexample.com") + ext(0x002b, b"\x02\x03\x04") + ext(0x0033, b"\x00\x65\x00\x18\x00\x61" + rb(97))
+        ch2 = legacy + cr + bytes([len(sid)]) + sid + len(offered).to_bytes(2, "big") + offered + b"\x01\x00" + len(ce2).to_bytes(2, "big") + ce2
+        ev.append(Ev("c", refrec.plain_record(22, wire, hs(1, ch2)), "hs"))
 
     # ---------------- ServerHello
     se = b""
